@@ -43,6 +43,12 @@ Proof.
     + apply IH. exact H.
 Qed.
 
+Lemma arc_aligned : forall items res,
+  map cp_item (appendResultCompletions items res) = items
+  /\ forall i it, nth_error items i = Some it ->
+       nth_error (appendResultCompletions items res) i = Some (arc_one it (nth_error res i)).
+Proof. intros items res. split; [apply arc_items|apply arc_nth_error]. Qed.
+
 (* a committed completion of appendResultCompletions is a success reported by the appender *)
 Lemma arc_committed items res c :
   In c (appendResultCompletions items res) -> cp_committed c = true ->
